@@ -135,6 +135,19 @@ def every_arm_completes(P, res, rule="EVERY-ARM-COMPLETES"):
         if not p_.startswith("eval::") or "{closure" in p_ or p_ == ev.path or "RestoreValues" not in g.locals[0]["ty"] or not g.locals[0]["ty"].replace(" ", "").startswith("std::result::Result<(),"):
             continue
         evs = {bi: (1, 1) for bi, t in g.calls() if _c06.pushed_state(g, t) not in (None, "NotEvaluated")}
+        # a local helper that schedules a later state on every one of its paths counts as doing so at its call
+        for bi, t in g.calls():
+            n2 = M.callee_name(t) or ""
+            g2 = P.funcs.get(n2)
+            if bi in evs or g2 is None or not n2.startswith("eval::") or n2 == p_:
+                continue
+            ev2 = {b2: (1, 1) for b2, t2 in g2.calls() if _c06.pushed_state(g2, t2) not in (None, "NotEvaluated")}
+            if not ev2:
+                continue
+            r2 = D.event_ranges(g2, ev2)
+            rets2 = [b2 for b2 in g2.reachable_blocks() if g2.blocks[b2]["term"]["t"] == "return"]
+            if rets2 and all(r2.get(b2, (0, 0))[0] >= 1 for b2 in rets2):
+                evs[bi] = (1, 1)
         if not evs:
             continue
         nh += 1
